@@ -69,6 +69,9 @@ type VarDef struct {
 	Expr   string `json:"expr,omitempty"`    // non-empty: the variable holds a computed value with this body
 	Body   *Node  `json:"body,omitempty"`    // the body's AST (Expr is its printed form)
 	InProg bool   `json:"in_prog,omitempty"` // defined by a `&name = body;` statement of the program, not stored beforehand
+	// Host: the variable is not stored in the VM; the host answers for it through GlobalValueLoadFunc (how an embedding
+	// program supplies character attributes)
+	Host bool `json:"host,omitempty"`
 
 	body *printed
 }
@@ -360,7 +363,7 @@ func drawVars(t *rapid.T, withComputed bool) []VarDef {
 		default:
 			v = rapid.Int64Range(1, 20).Draw(t, "vsmall")
 		}
-		out = append(out, VarDef{Name: perm[i], Val: v})
+		out = append(out, VarDef{Name: perm[i], Val: v, Host: rapid.IntRange(0, 3).Draw(t, "hostVar") == 0})
 	}
 	_ = withComputed
 	return out
